@@ -91,4 +91,58 @@ theorem sendInv_reach (P : Bytes → Prop) (queue : Nat → List Bytes) (h : ∀
   | start => exact sendInv_init P queue h
   | step s t _ hstep ih => exact sendInv_step P ih hstep
 
+/-- per sender, nothing is lost, duplicated or reordered: what it has sent, what it is sending and what it
+will send are, in this order, the frames it set out to send; and `doneBy` is `done` with sender numbers -/
+def OrderInv (queue0 : Nat → List Bytes) (s : SockState) : Prop :=
+  s.done = s.doneBy.map Prod.snd ∧ ∀ i, sentBy s i ++ inFlight s i ++ s.queue i = queue0 i
+
+theorem orderInv_init (queue : Nat → List Bytes) : OrderInv queue (sockInit queue) := by
+  refine ⟨rfl, fun i => ?_⟩
+  simp [sockInit, sentBy, inFlight]
+
+theorem orderInv_step (queue0 : Nat → List Bytes) {s t : SockState} (hinv : OrderInv queue0 s) (hstep : SendStep s t)
+    (hcur : ∀ i, s.lock = none → s.cur i = none) : OrderInv queue0 t := by
+  obtain ⟨hd, ho⟩ := hinv
+  cases hstep with
+  | acquire i f q hlock hqueue =>
+    refine ⟨hd, fun j => ?_⟩
+    have := ho j
+    by_cases hj : j = i
+    · subst hj
+      have hc := hcur j hlock
+      simp only [sentBy, inFlight, hc, hqueue, upd_same] at this ⊢
+      simpa using this
+    · simp only [sentBy, inFlight, upd_other _ _ hj] at this ⊢
+      exact this
+  | write i w r k hc =>
+    refine ⟨hd, fun j => ?_⟩
+    have := ho j
+    by_cases hj : j = i
+    · subst hj
+      simp only [sentBy, inFlight, hc, upd_same] at this ⊢
+      rw [List.append_assoc w, List.take_append_drop]
+      exact this
+    · simp only [sentBy, inFlight, upd_other _ _ hj] at this ⊢
+      exact this
+  | release i w hc =>
+    refine ⟨by simp [hd], fun j => ?_⟩
+    have := ho j
+    by_cases hj : j = i
+    · subst hj
+      simp only [sentBy, inFlight, hc, upd_same, List.append_nil] at this ⊢
+      simpa [List.filter_append] using this
+    · have hne : (i == j) = false := by simpa using fun h => hj h.symm
+      simp only [sentBy, inFlight, upd_other _ _ hj] at this ⊢
+      simpa [List.filter_append, hne] using this
+
+theorem orderInv_reach (P : Bytes → Prop) (queue : Nat → List Bytes) (h : ∀ i, ∀ f ∈ queue i, P f)
+    {s : SockState} (hr : SendReach (sockInit queue) s) : OrderInv queue s := by
+  induction hr with
+  | start => exact orderInv_init queue
+  | step s t hs hstep ih =>
+    refine orderInv_step queue ih hstep (fun i hl => ?_)
+    have := (sendInv_reach P queue h hs).2.2
+    rw [hl] at this
+    exact this.1 i
+
 end Frappy.Wire
